@@ -83,6 +83,119 @@ def _range_bounds(call, tr, what):
     return tr.z(call.args[0]), tr.z(call.args[1])
 
 
+def regen_file_reader(src, tree, add):
+    """(e) tokenisation / column count / line-number index / int() conversion of parse_barcode_file.
+    Every statement of the two loops is matched (fail closed); the character classes of str.strip()/str.split()
+    and the digits int() accepts are obtained by reflection on the running interpreter (the one the
+    implementation runs under)."""
+    pf = py2coq.find_function(tree, 'BarcodeParser.parse_barcode_file')
+    withs = [n for n in pf.body if isinstance(n, ast.With)]
+    if len(withs) != 2:
+        raise Untranslatable('parse_barcode_file: expected two `with` blocks (two passes over the file), found %d' % len(withs))
+    opener = "gzip.open(barcodeFile, 'rt') if barcodeFile.endswith('.gz') else open(barcodeFile)"
+    loops = []
+    for w in withs:
+        if not (len(w.items) == 1 and _norm(w.items[0].context_expr) == opener and _norm(w.items[0].optional_vars) == 'f'
+                and len(w.body) == 1 and isinstance(w.body[0], ast.For)):
+            raise Untranslatable('parse_barcode_file: a pass is not `with <gz or plain text open> as f: for ...`')
+        lp = w.body[0]
+        if not (_norm(lp.target) in ('(i, line)', 'i, line') and _norm(lp.iter) == 'enumerate(f)' and not lp.orelse):
+            raise Untranslatable('parse_barcode_file: loop is not `for i, line in enumerate(f)`')
+        loops.append(lp)
+    tests, resplit = [], []
+    for lp in loops:
+        b = lp.body
+        if not (len(b) == 3 and _norm(b[0]) == 'parts = line.strip().split()' and isinstance(b[1], ast.If)
+                and isinstance(b[2], ast.If)):
+            raise Untranslatable('parse_barcode_file: loop body is not  parts = line.strip().split(); if ..; if ..elif ..')
+        rs = b[1]
+        t = rs.test
+        ok = (isinstance(t, ast.BoolOp) and isinstance(t.op, ast.And) and len(t.values) == 2
+              and isinstance(t.values[1], ast.Compare) and len(t.values[1].ops) == 1 and isinstance(t.values[1].ops[0], ast.In)
+              and isinstance(t.values[1].left, ast.Constant) and isinstance(t.values[1].left.value, str)
+              and len(t.values[1].left.value) == 1 and _norm(t.values[1].comparators[0]) == 'line'
+              and not rs.orelse and len(rs.body) == 1)
+        if ok:
+            ch = t.values[1].left.value
+            ok = _norm(rs.body[0]) == 'parts = line.strip().split(%r)' % ch
+        if not ok:
+            raise Untranslatable("parse_barcode_file: not `if len(parts) == 1 and '<c>' in line: parts = line.strip().split('<c>')`")
+        resplit.append((t.values[1].left, ch, t.values[0]))
+        chain = b[2]
+        if not (len(chain.orelse) == 1 and isinstance(chain.orelse[0], ast.If)):
+            raise Untranslatable('parse_barcode_file: not an if / elif chain on the number of columns')
+        tests.append((chain.test, chain.orelse[0].test, chain, chain.orelse[0]))
+    if len(set(_norm(x[0]) for x in tests)) != 1 or len(set(_norm(x[1]) for x in tests)) != 1 \
+            or len(set(c for _, c, _ in resplit)) != 1 or len(set(_norm(g) for _, _, g in resplit)) != 1 \
+            or _norm(resplit[0][2]) != _norm(tests[0][0]):
+        raise Untranslatable('parse_barcode_file: the two passes tokenise / count columns differently')
+    for node in (tests[0][0], tests[0][1]):
+        if _names(node) - {'len', 'parts'}:
+            raise Untranslatable('parse_barcode_file: column test mentions more than len(parts): %s' % _norm(node))
+    tr = py2coq.ExprTranslator(env={'len(parts)': 'n'})
+    add(_chunk(src, tests[1][0], 'gen_is_single', '(n : Z) : bool', tr.b(tests[1][0]), 'n = len(parts): the one-column branch'))
+    add(_chunk(src, tests[1][1], 'gen_is_pair', '(n : Z) : bool', tr.b(tests[1][1]),
+               'n = len(parts): the two-column branch (tried after the one-column branch)'))
+    add(_chunk(src, resplit[1][0], 'gen_resplit_char', ': Z', str(ord(resplit[1][1])),
+               "the character of the `'<c>' in line` / split('<c>') fallback"))
+    # pass 1: one column: pass; two columns: indexFirst / indexNotFirst (shape checked in (d)); no else
+    c1, c2 = tests[0][2], tests[0][3]
+    if not ([_norm(x) for x in c1.body] == ['pass'] and len(c2.body) == 2 and not c2.orelse
+            and _norm(c2.body[0]).startswith('indexFirst = ') and isinstance(c2.body[1], ast.If)):
+        raise Untranslatable('parse_barcode_file: first pass changed')
+    # pass 2
+    c1, c2 = tests[1][2], tests[1][3]
+    call = c1.body[0].value if c1.body and isinstance(c1.body[0], ast.Expr) else None
+    if not (isinstance(call, ast.Call) and _norm(call.func) == 'self.addBarcode' and len(call.args) == 1
+            and _norm(call.args[0]) == 'barcodeFileAlias' and [k.arg for k in call.keywords] == ['barcode', 'index']
+            and _norm(call.keywords[0].value) == 'parts[0]'):
+        raise Untranslatable('parse_barcode_file: one-column branch does not start with addBarcode(alias, barcode=parts[0], index=..)')
+    ix = call.keywords[1].value
+    if _names(ix) - {'i'}:
+        raise Untranslatable('parse_barcode_file: index of a one-column line is not a function of the line number i: %s' % _norm(ix))
+    add(_chunk(src, ix, 'gen_lineno_index', '(i : Z) : Z', py2coq.ExprTranslator().z(ix),
+               'index given to the barcode of a one-column line; i = 0-based line number'))
+    for st in c1.body[1:]:
+        if not (isinstance(st, ast.If) and _norm(st.test) == 'not nospec'):
+            raise Untranslatable('parse_barcode_file: unexpected statement in the one-column branch: %s' % _norm(st)[:80])
+    b2 = c2.body
+    if not (len(b2) == 4 and isinstance(b2[0], ast.If) and _norm(b2[0].test) == 'indexNotFirst' and isinstance(b2[1], ast.Try)
+            and _norm(b2[2]) == 'self.addBarcode(barcodeFileAlias, barcode=barcode, index=index)'
+            and isinstance(b2[3], ast.If) and _norm(b2[3].test) == 'not nospec'):
+        raise Untranslatable('parse_barcode_file: two-column branch is not  swap; try int(); addBarcode(alias, barcode, index); log')
+    t = b2[1]
+    ok = (len(t.body) == 1 and isinstance(t.body[0], ast.If) and _norm(t.body[0].test) == 'int(index) == int(str(int(index)))'
+          and [_norm(x) for x in t.body[0].body] == ['index = int(index)'] and [_norm(x) for x in t.body[0].orelse] == ['pass']
+          and len(t.handlers) == 1 and (t.handlers[0].type is None or _norm(t.handlers[0].type) in ('Exception', 'BaseException'))
+          and [_norm(x) for x in t.handlers[0].body] == ['pass'] and not t.orelse and not t.finalbody)
+    if not ok:
+        raise Untranslatable('parse_barcode_file: index conversion is not  try: index = int(index) (when int() accepts it)  except Exception: pass')
+    if not (len(c2.orelse) >= 1 and isinstance(c2.orelse[-1], ast.Raise) and isinstance(c2.orelse[-1].exc, ast.Call)
+            and _norm(c2.orelse[-1].exc.func) == 'ValueError'):
+        raise Untranslatable('parse_barcode_file: lines with another number of columns do not raise ValueError')
+    # ---- reflection: the classes behind str.strip() / str.split() and int()
+    spaces = [c for c in range(0x110000) if chr(c).isspace()]
+    every = ''.join(chr(c) for c in range(0x110000) if not (0xD800 <= c <= 0xDFFF))
+    split_on = set(every) - set(''.join(every.split()))           # the characters str.split() splits on
+    if sorted(ord(ch) for ch in split_on) != spaces or any((chr(c) + 'b' + chr(c)).strip() != 'b' for c in spaces) \
+            or any((ch + 'b' + ch).strip() != ch + 'b' + ch for ch in '\x00\x08\x0e\x1b!AaZ09_\x7f\x84\x86\u200b\u2060\ufeff'):
+        raise Untranslatable('str.split()/str.strip() do not use the str.isspace class on this interpreter')
+    add(_chunk(src, loops[1].body[0].value, 'gen_space_class', ': list Z', '[' + '; '.join(map(str, spaces)) + ']',
+               'by reflection: the code points str.strip() removes and str.split() splits on (str.isspace)'))
+
+    val = {}
+    for c in range(0x110000):
+        try:
+            val[c] = int(chr(c))
+        except ValueError:
+            pass
+    zeros = sorted(c for c, v in val.items() if v == 0)
+    if sorted(val) != sorted(z + d for z in zeros for d in range(10)) or any(val[z + d] != d for z in zeros for d in range(10)):
+        raise Untranslatable('int(): the accepted digits are not blocks of ten consecutive code points valued 0..9')
+    add(_chunk(src, t.body[0].test, 'gen_decimal_zeros', ': list Z', '[' + '; '.join(map(str, zeros)) + ']',
+               'by reflection: the code points int() reads as digit 0; each starts a block of ten digits 0..9'))
+
+
 def regen_barcode():
     """Fail-closed reading of the kernel the C03 theorems hinge on.  Every statement of the recognised
     loops is matched; an unrecognised shape raises Untranslatable (the tie is then reported broken)."""
@@ -243,6 +356,8 @@ def regen_barcode():
     if not (len(sw) == 1 and [_norm(x) for x in sw[0].body] == ['barcode, index = parts']
             and [_norm(x) for x in sw[0].orelse] == ['index, barcode = parts']):
         raise Untranslatable('parse_barcode_file: column swap changed')
+    # ---------------- (e) the file reader: tokenisation, column count, line-number index, int() conversion
+    regen_file_reader(src, tree, add)
     py2coq.write_gen(os.path.join(fw.COQ, 'Gen', 'GenBarcode.v'), '', chunks)
     return meta
 
@@ -366,6 +481,28 @@ def par_model(mode, inputs, costs=None, workers=8):
     return out
 
 
+def vm_crosscheck_multi(groups):
+    """fw.vm_crosscheck for several (mode, pairs) lists in ONE coqc run (run_C03x dispatches every mode; the
+    generated file is build/vm/C03/cases.v).  returns ([(ok, mismatches) per list], log)"""
+    import re
+    d = os.path.join(fw.BUILD, 'vm', 'C03')
+    os.makedirs(d, exist_ok=True)
+    body = ['From Coq Require Import ZArith List.', 'Import ListNotations.',
+            'From SCMO Require Import Lib.Val Model.C03x.', 'Open Scope Z_scope.']
+    for n, (mode, pairs) in enumerate(groups):
+        body.append('Definition cases%d : list (Val * Val) := [' % n)
+        body.append(';\n'.join('  (%s, %s)' % (fw.coq_val(fw.to_val(i)), fw.coq_val(fw.to_val(o))) for i, o in pairs))
+        body.append('].')
+        body.append('Eval vm_compute in (length (mismatches (run_C03x %d) cases%d), length cases%d).' % (mode, n, n))
+    with open(os.path.join(d, 'cases.v'), 'w') as f:
+        f.write('\n'.join(body) + '\n')
+    rc, out = fw.sh('ulimit -s unlimited 2>/dev/null; timeout 900 coqc -Q %s SCMO cases.v' % fw.COQ, cwd=d, timeout=960)
+    found = re.findall(r'=\s*\((\d+)(?:%nat)?,\s*(\d+)(?:%nat)?\)', out) if rc == 0 else []
+    if len(found) != len(groups):
+        return [(False, -1)] * len(groups), out
+    return [(int(a) == 0 and int(b) == len(pairs), int(a)) for (a, b), (_, pairs) in zip(found, groups)], out
+
+
 class IndexTable:
     """abstraction of cell indices to integers: digit tokens -> int, other tokens -> BIG + rank"""
     def __init__(self):
@@ -391,13 +528,136 @@ class IndexTable:
         return -779
 
 
+# ------------------------------------------------------------------ the whitelist FILE reader (Model/C03x.v)
+# Python mirror of the model's printer (print_rows / print_wl) and of the STATEMENT of C03_file_roundtrip /
+# C03_file_index_first_exact; the mirror printer is compared with the model's printer on every whitelist case.
+LAYOUTS = ('one', 'barcode_first', 'index_first')
+BLANKS_COMMON = [' ', '\t']
+BLANKS_RARE = ['\x0b', '\x0c', '\x1c', '\x1d', '\x1e', '\x1f', '\x85', '\xa0', '\u1680', '\u2000', '\u2003', '\u2009',
+               '\u200a', '\u2028', '\u2029', '\u202f', '\u205f', '\u3000']
+PINNED_COLUMN_CLASS = 'ATCGNX'          # the class the statement was proved for (gen_column_class of the pinned tree)
+NAME_STYLES = ['c%d', 'lib1_%d', '%d-A1', 'TruSeq_Single_Index_%d', 'A%d', 'cell.%d', 'acgt%d', 'n\xb0%d']
+DEGENERATE_NAMES = ['A', 'N', 'X', 'CAT', 'TAG', 'GATTACA', 'ACGT', 'NNNN', 'TTAGGC']
+ODD_TOKENS = ['7', '007', '+5', '-0', '-12', '1_0', '1__0', '_1', '1_', '+', '-', '\u0663', '1\u0662', '\uff11\uff12', '\xb2', '1e3',
+              '0x10', '1.0', '+-1', 'A', 'N', 'X', 'c1', 'acgt', 'ACGX', 'ACGTN', '3-TGCA-3-TATG', 'AC-GT', '12AC', 'AC12',
+              '\u0967\u0968', '0_7', '9' * 19, '1' * 40, '\ufeffAC', '\u200b']
+FUZZ_ALPHABET = 'AACN1170_+- \t\n\n\r\x0b\xa0x'
+
+
+def print_index(ix):
+    return str(ix) if isinstance(ix, int) else ix
+
+
+def row_text(row):
+    lead, toks, sep, trail, eol = row
+    return lead + sep.join(toks) + trail + eol
+
+
+def wl_rows(layout, ws):
+    """ws: [((lead, sep, trail, eol), index, barcode)] -> rows (lead, tokens, sep, trail, eol)"""
+    out = []
+    for (lead, sep, trail, eol), ix, bc in ws:
+        toks = [bc] if layout == 'one' else ([bc, print_index(ix)] if layout == 'barcode_first' else [print_index(ix), bc])
+        out.append((lead, toks, sep, trail, eol))
+    return out
+
+
+def print_wl(layout, ws):
+    return ''.join(row_text(r) for r in wl_rows(layout, ws))
+
+
+def py_int(tok):
+    try:
+        return int(tok)
+    except ValueError:
+        return None
+
+
+def is_class_token(tok):
+    return all(c in PINNED_COLUMN_CLASS for c in tok)
+
+
+def py_degenerate(ws):
+    return any(is_class_token(print_index(ix)) for _, ix, _ in ws)
+
+
+def is_blank(s):
+    return all(c.isspace() and c not in '\n\r' for c in s)
+
+
+def tok_ok(t):
+    return len(t) > 0 and not any(c.isspace() for c in t)
+
+
+def py_wl_ok(layout, ws):
+    """python transcription of wl_okb (the hypotheses of the round-trip theorems)"""
+    for n, ((lead, sep, trail, eol), ix, bc) in enumerate(ws):
+        last = n == len(ws) - 1
+        if not (is_blank(lead) and is_blank(sep) and is_blank(trail)):
+            return False
+        if layout != 'one' and sep == '':
+            return False
+        if eol not in ('\n', '\r', '\r\n') and not (eol == '' and last):
+            return False
+        if not (bc and in_alpha(bc)):
+            return False
+        if layout == 'one':
+            if ix != n + 1:
+                return False
+        elif isinstance(ix, int):
+            if isinstance(ix, bool):
+                return False
+        else:
+            if not tok_ok(ix) or py_int(ix) is not None:
+                return False
+    return True
+
+
+def wl_expected(layout, ws):
+    """the STATEMENT: the mapping a printed whitelist must load as (last line wins); index-first files one of whose
+    index names consists of column-class letters only are outside it (C03_file_index_first_degenerate_refuted)"""
+    d = {}
+    for _, ix, bc in ws:
+        d[bc] = ix
+    return d
+
+
+def enc_ix(ix):
+    return ['i', str(ix)] if isinstance(ix, int) else ['s', ix]
+
+
+def model_ix(v):
+    """index as the model prints it ([0; decimal string] | [1; token]) -> ['i', decimal] | ['s', token]"""
+    return ['i' if v[0] == 0 else 's', fw.as_str(v[1])]
+
+
+def items_to_map(items):
+    d = {}
+    for b, i in items:
+        d[b] = tuple(i)
+    return d
+
+
+def enc_wrow(w):
+    (lead, sep, trail, eol), ix, bc = w
+    return [[lead, sep, trail, eol], [[0, ix] if isinstance(ix, int) else [1, ix], bc]]
+
+
 class Prop(fw.PropBase):
     ID = 'C03'
     PROPS = 'Props/C03.v'
     TRUSTED = [
-        'modelled not verified: tokenisation and column-order detection of parse_barcode_file (the model starts '
-        'from the (barcode, index) sequence of addBarcode calls); covered by K with index-first, barcode-first '
-        'and one-column files, tab/space separated, plain and gz',
+        'the barcode FILE is modelled from its decoded text on (Model/C03x.v: universal-newline line iteration, strip/split on '
+        'the str.isspace class, the dead re-split, both passes of parse_barcode_file, int() on the index token incl. underscores, '
+        'non-ASCII decimal digits and the interpreter digit limit). Outside the model: gzip, utf-8 decoding (a BOM stays in the '
+        'first token), the file system, path_to_barcode_alias (file name -> alias), logging; plain and .gz files differ only in how '
+        'the text is obtained. K reads real plain and .gz files through parse_barcode_file and the lazy-loading path',
+        'the white-space class and the digit blocks of int() are obtained by reflection on the interpreter the implementation runs '
+        'under (str.isspace / str.split / str.strip / int), not from a specification of Python; universal-newline translation, '
+        'str.split, str.strip and int() themselves are hand-transcribed (tied by K, incl. every text over {A,1,blank,\\n,\\r} up to '
+        'length 4 / 6)',
+        'a lazily loaded alias whose file is refused (ValueError at the first touch) keeps the lines read before the bad line in its '
+        'exact table; that state is not modelled (file_run is None)',
         'the enumeration ORDER of hamming_circle (itertools.combinations/product) is not modelled; circle in the '
         'model enumerates the same multiset by structural recursion (K compares sorted lists); the order is not '
         'observable through the dictionaries',
@@ -411,6 +671,10 @@ class Prop(fw.PropBase):
         'never proposes N for that position and the iff does not hold; model and code still agree there',
         'one barcode file per alias (two files mapping to one alias are expanded twice over a growing table; '
         'not covered)',
+        'round trip of a printed whitelist file: barcodes non-empty over ACGTN; indices are integers or names int() refuses; white '
+        'space inside a line is anything str.isspace accepts except \\n and \\r; line ends \\n, \\r\\n or a lone \\r; an index-first file '
+        'must not be degenerate (no index NAME made of the letters ATCGNX only) - such a file is read with the columns exchanged '
+        '(C03_file_index_first_exact, C03_file_index_first_degenerate_refuted); model and code agree there',
     ]
 
     def regen(self):
@@ -705,7 +969,20 @@ class Prop(fw.PropBase):
         api, c2 = self.make_api()
         shipped, c3 = self.make_shipped()
         circle = self.make_circle()
-        payload = {'groups': groups, 'api': api, 'shipped': shipped, 'circle': circle}
+        # the file-reader cases come from their own generator stream (derived from, not consuming, self.rng), so the
+        # lookup streams above are what they were before the file reader was added
+        import random
+        r2 = random.Random('c03x-%s' % fw.canon_hash([int(x) for x in self.rng.getstate()[1][:8]]))
+        saved, self.rng = self.rng, r2
+        try:
+            fgroups, c4 = self.fr_file_groups(r2, len(groups))
+            self.pcases = self.fr_cases(r2)
+        finally:
+            self.rng = saved
+        groups = groups + fgroups
+        c1 = c1 + c4
+        payload = {'groups': groups, 'api': api, 'shipped': shipped, 'circle': circle,
+                   'pfiles': [{'text': c['text'], 'gz': c['gz'], 'lazy': c['lazy'], 'suffix': c['suffix']} for c in self.pcases]}
         corpus = []
         cdir = os.path.join(fw.VERIF, 'corpus', 'C03')
         if os.path.isdir(cdir):
@@ -720,8 +997,387 @@ class Prop(fw.PropBase):
                                    'flavour': 'corpus', 'exhaustive': False, 'kind': 'api', 'src': ('api', n, 0)})
         return payload, corpus + c1 + c2 + c3, circle
 
-    # ---------------------------------------------------------------- K
+    # ================================================================ the whitelist FILE reader (Model/C03x.v)
+    def fr_blank(self, r, allow_empty=True):
+        n = r.choice([0, 1, 1, 1, 2, 3]) if allow_empty else r.choice([1, 1, 1, 2, 3])
+        return ''.join(r.choice(BLANKS_RARE) if r.random() < 0.15 else r.choice(BLANKS_COMMON) for _ in range(n))
+
+    def fr_decos(self, r, n):
+        """white space / line ends of n lines: mostly the plain styles of the shipped files, boundary-biased otherwise"""
+        style = r.choice(['tab', 'space', 'tab', 'space', 'wild', 'wild', 'crlf', 'cr', 'trailing'])
+        file_eol = {'crlf': '\r\n', 'cr': '\r'}.get(style, '\n')
+        out = []
+        for _ in range(n):
+            if style in ('tab', 'space', 'crlf', 'cr'):
+                d = ['', '\t' if style != 'space' else ' ', '', file_eol]
+            elif style == 'trailing':
+                d = ['', r.choice(['\t', ' ']), self.fr_blank(r, False), '\n']
+            else:
+                d = [self.fr_blank(r) if r.random() < 0.3 else '', self.fr_blank(r, False),
+                     self.fr_blank(r) if r.random() < 0.4 else '', r.choice(['\n', '\n', '\r\n', '\r'])]
+            out.append(d)
+        if out and r.random() < 0.3:
+            out[-1][3] = ''                      # no terminator after the last line
+        return [tuple(d) for d in out]
+
+    def fr_indices(self, r, n, layout):
+        """canonical indices (they survive printing): integers, and names int() refuses"""
+        if layout == 'one':
+            return list(range(1, n + 1))
+        kind = r.choice(['count', 'count', 'count0', 'named', 'named', 'mixed', 'ints',
+                         'degenerate' if layout == 'index_first' else 'named'])
+        start = r.choice([1, 1, 0, 5, 100])
+        style = r.choice(NAME_STYLES)
+        out = []
+        for i in range(n):
+            if kind in ('count', 'count0'):
+                out.append(i + (0 if kind == 'count0' else start))
+            elif kind == 'ints':
+                out.append(r.choice([0, -1, -12, 7, 10 ** 15, 2 ** 59, i, r.randint(-50, 5000)]))
+            elif kind == 'named':
+                out.append(style % (i if r.random() < 0.85 else r.randint(0, 3)))     # repeated names are legal
+            else:
+                out.append(i + 1 if r.random() < 0.5 else style % i)
+        if kind == 'degenerate' and n:
+            for _ in range(r.choice([1, 1, 2, n])):
+                out[r.randrange(n)] = r.choice(DEGENERATE_NAMES)
+        return out
+
+    def fr_whitelists(self, r, count):
+        out = []
+        for _ in range(count):
+            layout = r.choice(LAYOUTS + ('index_first', 'barcode_first'))
+            L = r.choice([1, 2, 3, 4, 6, 8, 8, 12, 16])
+            n = r.choice([0, 1, 1, 2, 3, 4, 6, 9, 14])
+            bcs = self.gen_whitelist(L, n, r.choice(['plain', 'N', 'allN', 'near', 'dup', 'mixed'])) if n else []
+            ws = list(zip(self.fr_decos(r, len(bcs)), self.fr_indices(r, len(bcs), layout), bcs))
+            out.append({'kind': 'wl', 'layout': layout, 'ws': ws, 'text': print_wl(layout, ws)})
+        return out
+
+    def fr_rows(self, r, count):
+        """arbitrary rows of tokens: 0..4 columns, odd index tokens (007, +5, 1_0, non-ASCII digits, digit-limit),
+        barcodes outside ACGTN, mixed one/two-column files"""
+        import sys
+        lim = sys.get_int_max_str_digits() if hasattr(sys, 'get_int_max_str_digits') else 0
+        out = []
+        for _ in range(count):
+            n = r.choice([1, 2, 3, 5, 8])
+            shape = r.choice(['two', 'two', 'two', 'mixed', 'one', 'broken', 'broken'])
+            order = r.choice(['bf', 'if'])
+            decos = self.fr_decos(r, n)
+            rows = []
+            for i in range(n):
+                bc = r.choice([self.rand_bc(r.choice([1, 3, 8]), 0.1), self.rand_bc(4, 0.1, extra='X'), self.rand_bc(6, 0.2),
+                               r.choice(ODD_TOKENS)])
+                ix = r.choice([str(i + 1), str(i + 1), r.choice(ODD_TOKENS), 'c%d' % i])
+                if lim and r.random() < 0.02:
+                    ix = r.choice(['1', '0', '1_']) * (lim + r.choice([0, 1])) + r.choice(['', '1'])
+                ncol = {'two': 2, 'one': 1}.get(shape) or (r.choice([1, 2, 2]) if shape == 'mixed' else r.choice([0, 1, 2, 2, 2, 3, 4]))
+                toks = {0: [], 1: [bc], 2: ([bc, ix] if order == 'bf' else [ix, bc]), 3: [ix, bc, 'x'], 4: [bc, ix, '1', 'A']}[ncol]
+                lead, sep, trail, eol = decos[i]
+                rows.append((lead, toks, sep, trail, eol))
+            out.append({'kind': 'rows', 'rows': rows, 'text': ''.join(row_text(x) for x in rows)})
+        return out
+
+    def fr_cases(self, r):
+        """all file-reader cases of this run (corpus first)"""
+        quick = self.tier == 'quick'
+        cases = []
+        cdir = os.path.join(fw.VERIF, 'corpus', 'C03', 'files')
+        if os.path.isdir(cdir):
+            for f in sorted(os.listdir(cdir)):
+                if f.endswith('.json'):
+                    for j in json.load(open(os.path.join(cdir, f))):
+                        cases.append({'kind': 'corpus', 'text': j['text'], 'note': j.get('note', f)})
+        for eol in ('\r', '\r\n'):      # longer than the 8 KiB read chunk of the text layer: line ends fall on chunk boundaries
+            ws = [(('', '\t', '', eol), i + 1, self.rand_bc(8, 0.05)) for i in range(1300)]
+            cases.append({'kind': 'wl', 'layout': 'index_first', 'ws': ws, 'text': print_wl('index_first', ws)})
+        cases += self.fr_whitelists(r, 160 if quick else 2500)
+        cases += self.fr_rows(r, 140 if quick else 2500)
+        for _ in range(150 if quick else 4000):
+            cases.append({'kind': 'fuzz', 'text': ''.join(r.choice(FUZZ_ALPHABET) for _ in range(r.randint(0, 40)))})
+        for n in range(0, (4 if quick else 6) + 1):
+            for t in itertools.product('A1 \n\r', repeat=n):
+                cases.append({'kind': 'exhaustive', 'text': ''.join(t)})
+        base = os.path.join(fw.REPO, 'singlecellmultiomics', 'modularDemultiplexer')
+        for d in SHIPPED_DIRS:
+            for nm in sorted(os.listdir(os.path.join(base, d))) if os.path.isdir(os.path.join(base, d)) else []:
+                try:
+                    raw = open(os.path.join(base, d, nm), 'rb').read()
+                    if nm.endswith('.gz'):
+                        import gzip
+                        raw = gzip.decompress(raw)
+                    text = raw.decode('utf-8')
+                except Exception:
+                    continue
+                if len(text) <= (40000 if quick else 10 ** 7):
+                    cases.append({'kind': 'shipped', 'text': text, 'note': d + '/' + nm})
+        for n, c in enumerate(cases):
+            c['gz'] = r.random() < 0.25
+            c['lazy'] = r.random() < 0.25
+            c['suffix'] = r.choice(['.bc', '.bc', '.tsv', '.txt', ''])
+            if c['kind'] == 'wl':
+                c['pre'] = py_wl_ok(c['layout'], c['ws'])
+                c['degenerate'] = py_degenerate(c['ws'])
+        return cases
+
+    def fr_file_groups(self, r, first_gi):
+        """END TO END: decorated whitelist files in scratch barcode directories, loaded by the real BarcodeParser
+        (eager / lazyLoad), queried; these cases join the lookup cases (oracle, model mode 5, specb, tables) and are
+        additionally run through the model from the TEXT (mode 11)"""
+        quick = self.tier == 'quick'
+        groups, cases = [], []
+        for n in range(10 if quick else 60):
+            gi = first_gi + n
+            k = r.choice([0, 1, 1, 2, 2])
+            files, queries, percase = [], [], []
+            for ai in range(r.randint(2, 4)):
+                layout = r.choice(LAYOUTS + ('index_first',))
+                L = r.choice([1, 2, 3, 3, 4])
+                flavour = r.choice(['plain', 'N', 'allN', 'near', 'dup', 'mixed'])
+                bcs = self.gen_whitelist(L, r.randint(1, 7), flavour)
+                ixs = self.fr_indices(r, len(bcs), layout)
+                ixs = [(i if not isinstance(i, int) or abs(i) < 2 ** 40 else i % 1000) for i in ixs]
+                if layout == 'index_first':
+                    ixs = [('c%d' % j if isinstance(i, str) and is_class_token(i) else i) for j, i in enumerate(ixs)]
+                ws = list(zip(self.fr_decos(r, len(bcs)), ixs, bcs))
+                text = print_wl(layout, ws)
+                gz = r.random() < 0.25
+                tab = IndexTable()
+                lines = [(b, tab.of_token(ix)) for _, ix, b in ws]
+                alias = 'd%d_%d' % (gi, ai)
+                suffix = r.choice(['.bc.gz', '.gz']) if gz else r.choice(['.bc', '.tsv', '.txt'])
+                files.append({'name': alias + suffix, 'content': text, 'gz': gz, 'raw': True})
+                qs, exhaustive = self.queries_for(bcs, k, 4)
+                qs = self.with_accessors(qs)
+                queries.append([alias, qs])
+                percase.append({'alias': alias, 'lines': lines, 'k': k, 'queries': qs, 'tab': tab, 'fmt': 'decorated:' + layout,
+                                'gz': gz, 'flavour': flavour, 'exhaustive': exhaustive, 'kind': 'file', 'file': files[-1],
+                                'rows': None, 'raw': None, 'text': text, 'layout': layout, 'ws': ws})
+            mode = r.choice(['eager', 'star', 'some'])
+            lazy = None if mode == 'eager' else ('*' if mode == 'star' else [c['alias'] for c in percase if r.random() < 0.5])
+            for ai, c in enumerate(percase):
+                c['lazy'] = (lazy == '*') or (isinstance(lazy, list) and c['alias'] in lazy)
+                c['src'] = ('groups', gi, ai)
+                cases.append(c)
+            groups.append({'k': k, 'lazy': lazy, 'files': files, 'queries': queries, 'dump': [c['alias'] for c in percase]})
+        return groups, cases
+
+    @staticmethod
+    def fr_canon_impl(o):
+        """implementation result of one file -> ('raise', type) | ('ok', {barcode: ('i', decimal) | ('s', token)})"""
+        if not isinstance(o, dict) or ('items' not in o and 'error' not in o):
+            return ('malformed', repr(o)[:200])
+        if 'error' in o:
+            return ('raise', str(o['error']).split(':')[0])
+        try:
+            return ('ok', items_to_map(o['items']))
+        except Exception:
+            return ('malformed', repr(o)[:200])
+
+    def fr_statement_failures(self, res):
+        """the round-trip STATEMENT (C03_file_roundtrip) on the implementation's outputs: a printed whitelist that
+        satisfies the hypotheses (python transcription of wl_okb; index-first: not degenerate) must load as itself"""
+        fails = []
+        out = res.get('pfiles') or []
+        for c, o in zip(self.pcases, out):
+            if c['kind'] != 'wl' or not c['pre'] or (c['layout'] == 'index_first' and c['degenerate']):
+                continue
+            exp = {b: tuple(enc_ix(i)) for b, i in wl_expected(c['layout'], c['ws']).items()}
+            got = self.fr_canon_impl(o)
+            if got != ('ok', exp):
+                fails.append((c, o, exp))
+        return fails
+
+    def file_check(self):
+        """K for the file reader: real files (plain and .gz, eager parse_barcode_file and the lazy
+        parse_pending_barcode_file_of_alias path) against parse_file of the model; the statement on the outputs"""
+        res, pcases = self.res, self.pcases
+        out = res.get('pfiles') or []
+        maxd = int(res.get('maxd') or 0)
+        if len(out) != len(pcases):
+            raise fw.Broken('correspondence', 'file reader: %d results for %d files' % (len(out), len(pcases)))
+        impl = [self.fr_canon_impl(o) for o in out]
+        hist_kind, hist_out, hist_err, hist_layout = {}, {}, {}, {}
+        n_nonascii = n_cr = n_noeol = n_gz = n_lazy = 0
+        distinct = set()
+        for c, a in zip(pcases, impl):
+            hist_kind[c['kind']] = hist_kind.get(c['kind'], 0) + 1
+            hist_out[a[0]] = hist_out.get(a[0], 0) + 1
+            if a[0] == 'raise':
+                hist_err[a[1]] = hist_err.get(a[1], 0) + 1
+            t = c['text']
+            n_nonascii += any(ord(ch) > 127 for ch in t)
+            n_cr += '\r' in t
+            n_noeol += bool(t) and t[-1] not in '\n\r'
+            n_gz += c['gz']
+            n_lazy += c['lazy']
+            if c['kind'] == 'wl':
+                key = c['layout'] + ('/degenerate' if c['layout'] == 'index_first' and c['degenerate'] else '')
+                hist_layout[key] = hist_layout.get(key, 0) + 1
+            if len(t.split()) >= 2 and (any(ch.isspace() and ch not in ' \t\n' for ch in t) or t[-1:] not in ('\n',)
+                                        or len(set(len(l.split()) for l in t.splitlines())) > 1 or '  ' in t):
+                distinct.add(fw.canon_hash(t))
+        stmt_fail = self.fr_statement_failures(res)
+        n_stmt = sum(1 for c in pcases if c['kind'] == 'wl' and c['pre'] and not (c['layout'] == 'index_first' and c['degenerate']))
+        fr = {
+            'files': len(pcases), 'kind_histogram': hist_kind, 'implementation_outcomes': hist_out,
+            'exception_types': hist_err, 'whitelist_layouts': hist_layout,
+            'files_with_non_ascii_white_space_or_digits': n_nonascii, 'files_with_cr_or_crlf': n_cr,
+            'files_without_final_newline': n_noeol, 'gz_files': n_gz, 'read_through_lazy_loading': n_lazy,
+            'distinct_nontrivial': len(distinct),
+            'rule': 'one evaluation = one real barcode file (utf-8 bytes, plain or gzip) read by parse_barcode_file on a fresh '
+                    'BarcodeParser, or by a lazyLoad parser at the first parser[alias]; observable = the barcode -> index mapping '
+                    '(index type and value) or that an exception is raised. non-trivial = at least two tokens and (white space other than '
+                    'blank/tab/\\n, or \\r line ends, or no final newline, or lines with different column counts, or runs of blanks)',
+            'int_max_str_digits': maxd,
+            'roundtrip_statement_evaluated_on_impl': n_stmt, 'roundtrip_statement_failures': len(stmt_fail),
+            'precondition_hit_rate_whitelist_cases': round(sum(1 for c in pcases if c['kind'] == 'wl' and c['pre']) /
+                                                           max(1, hist_kind.get('wl', 0)), 4),
+            'exhaustive': 'every text over {A, 1, blank, \\n, \\r} of length <= %d' % (4 if self.tier == 'quick' else 6),
+        }
+        self.cov['file_reader'] = fr
+        self.fr_stmt_fail = stmt_fail
+        dis = []
+        if self.model_ok:
+            mo = fw.run_model('C03', 10, [[c['text'], maxd] for c in pcases])
+            for c, m, a, raw in zip(pcases, mo, impl, out):
+                if m == [-1]:
+                    mm = ('raise',)
+                else:
+                    mm = ('ok', {fw.as_str(b): tuple(model_ix(i)) for b, i in m[0]})
+                if mm[0] != a[0] or (mm[0] == 'ok' and mm[1] != a[1]):
+                    dis.append({'case': c, 'model': mm, 'impl': raw})
+            fr['files_compared_with_model'] = len(pcases)
+            # the printer of the specification side and its hypotheses: mirror printer = model printer
+            wl = [c for c in pcases if c['kind'] == 'wl' and all(not isinstance(ix, int) or abs(ix) < 2 ** 61 for _, ix, _ in c['ws'])]
+            wo = fw.run_model('C03', 13, [[LAYOUTS.index(c['layout']), [enc_wrow(w) for w in c['ws']], maxd] for c in wl])
+            pdis = 0
+            for c, o in zip(wl, wo):
+                text, okb, deg, inf = fw.as_str(o[0]), o[1], o[2], o[3]
+                want_inf = {'one': 0, 'barcode_first': 1 if c['ws'] else 0, 'index_first': 1 if c['degenerate'] else 0}[c['layout']]
+                if text != c['text'] or okb != (1 if c['pre'] else 0) or deg != (1 if c['degenerate'] else 0) or (c['pre'] and inf != want_inf):
+                    pdis += 1
+                    dis.append({'case': c, 'model': {'print_wl': text, 'wl_okb': okb, 'degenerate': deg, 'index_not_first': inf},
+                                'impl': 'harness printer / hypotheses: text equal %s, pre %s, degenerate %s' % (text == c['text'], c['pre'], c['degenerate'])})
+            rw = [c for c in pcases if c['kind'] == 'rows']
+            ro = fw.run_model('C03', 12, [[[ld, tk, sp, tr, el] for ld, tk, sp, tr, el in c['rows']] for c in rw])
+            rows_ok = 0
+            for c, o in zip(rw, ro):
+                rows_ok += o[1]
+                if fw.as_str(o[0]) != c['text']:
+                    pdis += 1
+                    dis.append({'case': c, 'model': {'print_rows': fw.as_str(o[0])}, 'impl': 'harness printer differs'})
+            fr['printer_compared'] = len(wl) + len(rw)
+            fr['printer_disagreements'] = pdis
+            fr['rows_cases_satisfying_rows_okb'] = rows_ok
+            fr['disagreements'] = len(dis)
+            small = [(c, m) for c, m in zip(pcases, mo) if len(c['text']) <= 60 and c['kind'] != 'exhaustive']
+            self.rng.shuffle(small)
+            pairs = [([c['text'], maxd], m) for c, m in small[:100]]
+            # one coqc run for the lookup sample (mode 5, left by correspondence_lookups) and the file sample (mode 10)
+            pairs5 = getattr(self, 'vm_pairs5', None)
+            self.vm_pairs5 = None
+            res_vm, log = vm_crosscheck_multi(([(5, pairs5)] if pairs5 is not None else []) + [(10, pairs)])
+            if pairs5 is not None:
+                self.cov['vm_compute_crosscheck'] = {'cases': len(pairs5), 'mismatches': res_vm[0][1]}
+            fr['vm_compute_crosscheck'] = {'cases': len(pairs), 'mismatches': res_vm[-1][1]}
+            if not all(ok for ok, _ in res_vm):
+                raise fw.Broken('extraction', 'vm_compute and extracted model disagree (lookups, files): %r ' % (res_vm,) + log[-800:])
+            self.cov['traces_validated_against_impl'] = (self.cov.get('traces_validated_against_impl') or 0) + len(pcases)
+        self.cov['evaluations_lookups'] = self.cov.get('evaluations')
+        self.cov['evaluations_files'] = len(pcases)
+        if isinstance(self.cov.get('evaluations'), int):
+            self.cov['evaluations'] += len(pcases)
+        if isinstance(self.cov.get('distinct_nontrivial'), int):
+            self.cov['distinct_nontrivial'] += len(distinct)
+        sm = []
+        for c, o in list(zip(pcases, out))[3:600:97]:
+            sm.append({'kind': c['kind'], 'text': c['text'][:120], 'gz': c['gz'], 'lazy': c['lazy'], 'impl': str(o)[:240]})
+        fr['samples'] = sm
+        self.fr_dis = dis
+        if dis or stmt_fail:
+            if stmt_fail:
+                c, o, exp = min(stmt_fail, key=lambda x: len(x[0]['text']))
+                first = 'printed %s whitelist %r read as %s; the whitelist is %r' % (c['layout'], c['text'][:200], str(o)[:300], exp)
+            else:
+                d = min(dis, key=lambda x: len(x['case']['text']))
+                first = 'file %r (%s%s%s): model %s, implementation %s' % (d['case']['text'][:200], d['case']['kind'],
+                        ', gz' if d['case']['gz'] else '', ', lazy' if d['case']['lazy'] else '', str(d['model'])[:300], str(d['impl'])[:300])
+            raise fw.Broken('correspondence', 'file reader: %d files differ from the model, %d printed whitelists violate the round-trip '
+                            'statement; first: %s' % (len(dis), len(stmt_fail), first))
+
     def correspondence(self):
+        err = ferr = None
+        try:
+            self.correspondence_lookups()
+        except fw.Broken as b:
+            err = b
+        if getattr(self, 'res', None) is not None and getattr(self, 'pcases', None) is not None:
+            try:
+                self.file_check()
+            except fw.Broken as b:
+                ferr = b
+        if err and ferr:
+            raise fw.Broken(err.kind, err.detail + '  ||  ' + ferr.detail)
+        if err or ferr:
+            raise err or ferr
+
+    def search_files(self):
+        """failing input for the file reader: the round-trip statement on the implementation's outputs, shrunk"""
+        fails = getattr(self, 'fr_stmt_fail', None)
+        if fails is None:
+            fails = self.fr_statement_failures(self.res)
+        seen = set()
+        for c, o, exp in sorted(fails, key=lambda x: (len(x[0]['ws']), len(x[0]['text']))):
+            if c['layout'] in seen:
+                continue
+            seen.add(c['layout'])
+            layout, ws, o = self.shrink_file(c['layout'], c['ws'], o, c)
+            text = print_wl(layout, ws)
+            exp = {b: enc_ix(i) for b, i in wl_expected(layout, ws).items()}
+            self.witnesses.append({
+                'key': 'file:' + layout,
+                'what': 'parse_barcode_file on the %s file %r (%s%s) gives %s; the file lists %r'
+                        % (layout.replace('_', '-'), text, 'gz' if c['gz'] else 'plain', ', read through lazy loading' if c['lazy'] else '',
+                           str(o)[:400], exp),
+                'input': {'text': text, 'layout': layout, 'gz': c['gz'], 'lazy': c['lazy'], 'suffix': c['suffix'],
+                          'whitelist': [[enc_ix(ix), bc] for _, ix, bc in ws]},
+                'impl': o, 'expected': exp})
+
+    def shrink_file(self, layout, ws, o, c):
+        def renum(w):
+            return [(d, (n + 1 if layout == 'one' else ix), b) for n, (d, ix, b) in enumerate(w)]
+
+        def bad(cands):
+            pay = {'pfiles': [{'text': print_wl(layout, w), 'gz': c['gz'], 'lazy': c['lazy'], 'suffix': c['suffix']} for w in cands]}
+            r = fw.run_impl('impl_c03.py', pay)['pfiles']
+            res = []
+            for w, x in zip(cands, r):
+                exp = {b: tuple(enc_ix(i)) for b, i in wl_expected(layout, w).items()}
+                ok = py_wl_ok(layout, w) and not (layout == 'index_first' and py_degenerate(w))
+                res.append((ok and self.fr_canon_impl(x) != ('ok', exp), x))
+            return res
+        try:
+            ws = list(ws)
+            for _ in range(10):
+                plain = ('', '\t', '', '\n')
+                cands = [renum(ws[:i] + ws[i + 1:]) for i in range(len(ws))]
+                cands += [ws[:i] + [(plain, ws[i][1], ws[i][2])] + ws[i + 1:] for i in range(len(ws)) if ws[i][0] != plain]
+                cands += [ws[:i] + [(ws[i][0], ws[i][1], ws[i][2][:1])] + ws[i + 1:] for i in range(len(ws)) if len(ws[i][2]) > 1]
+                if not cands:
+                    break
+                flags = bad(cands)
+                nxt = [(w, x) for w, (f, x) in zip(cands, flags) if f]
+                if not nxt:
+                    break
+                ws, o = nxt[0]
+        except Exception as e:
+            self.notes.append('file shrink failed: %r' % (e,))
+        return layout, ws, o
+
+    # ---------------------------------------------------------------- K (lookups)
+    def correspondence_lookups(self):
         payload, cases, circle = self.build()
         res = fw.run_impl('impl_c03.py', payload)
         self.payload, self.cases, self.res = payload, cases, res
@@ -831,6 +1487,24 @@ class Prop(fw.PropBase):
                 if m != a:
                     dis.append({'case': c, 'q': q, 'model': m, 'impl': raw})
             pairs2.append((c, ci))
+        # --- END TO END from the file TEXT (Model/C03x.v file_run, mode 11): the decorated whitelist files
+        tcases = [c for c in mcases if c.get('text') is not None]
+        if tcases:
+            maxd = int(res.get('maxd') or 0)
+            tout = par_model(11, [[c['text'], maxd, c['k'], [enc_op(q) for q in c['queries']], 1 if c['lazy'] else 0,
+                                   [[s, n] for s, n in c['tab'].t.items()]] for c in tcases],
+                             [n_items([b for b, _ in c['lines']], c['k']) ** 2 // 1000 + len(c['queries']) for c in tcases])
+            for c, mo in zip(tcases, tout):
+                impl = self.impl_answers(res, c)
+                ci = [self.canon_impl(c, a) for a in impl]
+                if len(mo) != len(ci):
+                    dis.append({'case': c, 'q': None, 'model': mo, 'impl': 'file -> lookup: the model refuses the file or its output is malformed'})
+                    continue
+                for q, m, a, raw in zip(c['queries'], mo, ci, impl):
+                    validated += 1
+                    if m != a:
+                        dis.append({'case': c, 'q': q, 'model': m, 'impl': raw})
+        self.cov['file_to_lookup_histories_through_model'] = len(tcases)
         # --- the theorem's boolean specification on the implementation's answers (where the precondition holds)
         pre = fw.run_model('C03', 1, [[[[b, i] for b, i in c['lines']], c['k'], [q for q in c['queries'] if isinstance(q, str)], 0]
                                       for c in mcases])
@@ -911,10 +1585,7 @@ class Prop(fw.PropBase):
                 idx = list(range(min(8, len(c['queries']))))      # lazy answers depend on the prefix
             inp = [[[b, i] for b, i in c['lines']], c['k'], [enc_op(c['queries'][j]) for j in idx], 1 if c['lazy'] else 0]
             pairs.append((inp, [mo[j] for j in idx]))
-        ok, nm, log = fw.vm_crosscheck('C03', 5, pairs)
-        self.cov['vm_compute_crosscheck'] = {'cases': len(pairs), 'mismatches': nm}
-        if not ok:
-            raise fw.Broken('extraction', 'vm_compute and extracted model disagree: ' + log[-800:])
+        self.vm_pairs5 = pairs          # evaluated inside Coq together with the file sample (file_check: one coqc run)
         if tdis and not (dis or cdis or spec_fail or oracle_dis):
             d = tdis[0]
             raise fw.Broken('correspondence', 'the exact/extended tables differ from the model on %d whitelists although every lookup '
@@ -939,6 +1610,24 @@ class Prop(fw.PropBase):
             raise fw.Broken('correspondence', 'model/specification and implementation disagree: %d lookups, %d circles, %d specb, '
                             '%d python-spec; first: %s' % (len(dis), len(cdis), len(spec_fail), len(oracle_dis), first))
 
+    # ---------------------------------------------------------------- known findings
+    DEGENERATE_KEY = 'file:index_first:degenerate'
+
+    def replay_known(self, finding):
+        """file:index_first:degenerate - the witness of C03_file_index_first_degenerate_refuted on the implementation:
+        the index-first file "1\\tCC\\nN\\tAA\\n" is read with the columns exchanged"""
+        if finding.get('key') != self.DEGENERATE_KEY:
+            return True
+        r = fw.run_impl('impl_c03.py', {'pfiles': [{'text': '1\tCC\nN\tAA\n', 'gz': False, 'lazy': False, 'suffix': '.bc'}]})['pfiles'][0]
+        return self.fr_canon_impl(r) != ('ok', {'CC': ('i', '1'), 'AA': ('s', 'N')})
+
+    def matches(self, finding, witness):
+        if finding.get('key') == self.DEGENERATE_KEY:
+            # only a witness that IS a degenerate index-first file (search never produces one: they are outside the hypothesis)
+            ws = (witness.get('input') or {}).get('whitelist') or []
+            return witness.get('key') == 'file:index_first' and any(i[0] == 's' and is_class_token(i[1]) for i, _ in ws)
+        return finding.get('key') == witness.get('key')
+
     # ---------------------------------------------------------------- search
     def search(self):
         """Evaluates the STATEMENT of C03_assign_iff (python transcription `oracle`; specb needs the model) on the
@@ -946,6 +1635,10 @@ class Prop(fw.PropBase):
         if getattr(self, 'res', None) is None:
             self.payload, self.cases, circle = self.build()
             self.res = fw.run_impl('impl_c03.py', self.payload)
+        try:
+            self.search_files()
+        except Exception as e:
+            self.notes.append('file search raised %r' % (e,))
         fails = []
         acc_seen = set()
         for c in self.cases:
